@@ -254,13 +254,25 @@ def w_align(ctx, rng, i):
         else:
             s, tg = tx.pwa_pair(rng)
             cls = CachedPWA if kind == "PiecewiseAffine" else PythonPWA
+            compact = rng.random() < 0.06
+            if compact:
+                # a grid mesh of < 256 vertices whose triangle list is stored in the narrowest type that holds its vertex indices -
+                # it has about twice as many triangles as vertices
+                gshape = (int(rng.integers(12, 16)), int(rng.integers(12, 16)))
+                while gshape[0] * gshape[1] > 255:
+                    gshape = (gshape[0] - 1, gshape[1])
+                gm = ms.TriMesh.init_2d_grid(gshape)
+                sp_ = gm.points * (2.0 * tx.BOX / max(gshape)) - tx.BOX
+                s = ms.TriMesh(sp_, trilist=np.asarray(gm.trilist).astype(np.uint8))
+                tg = ms.PointCloud(sp_ @ (np.eye(2) + rng.uniform(-0.15, 0.15, (2, 2))).T + rng.uniform(-3, 3, 2) + rng.normal(scale=0.05, size=sp_.shape))
+                opts["compact_trilist"] = True
             if rng.random() < 0.35:
                 # the same mesh in any unit (metres for a sub-millimetre object ... map coordinates)
                 unit = 10.0 ** rng.uniform(-6, 3)
                 s = ms.TriMesh(s.points * unit, trilist=s.trilist)
                 tg = ms.PointCloud(tg.points * unit)
                 opts["unit"] = "small" if unit < 1e-2 else "large" if unit > 30 else "unit"
-            r_ = rng.random()
+            r_ = rng.random() if not compact else 0.99
             if r_ < 0.4:
                 s = ms.PointCloud(s.points)      # PWA triangulates a bare point cloud itself
             elif r_ < 0.75:
@@ -317,6 +329,11 @@ def w_align(ctx, rng, i):
             sv = np.linalg.svd(cand - cand.mean(0), compute_uv=False)
             if sv[-1] > 0.1 * sv[0] and len(np.unique(cand, axis=0)) == len(cand):      # still in general position after rounding
                 src = cand
+                if rng.random() < 0.4:
+                    # unsigned pixel coordinates (image positions stored as uint16 / uint32)
+                    shifted = cand - cand.min(0) + int(rng.integers(0, 20))
+                    if shifted.max() < 60000:
+                        src = shifted.astype([np.uint16, np.uint32][rng.integers(0, 2)])
                 ctx.bump("integer_typed_sources")
         L, tr = family_member(rng, kind, d, opts)
         tgt = src @ L.T + tr
@@ -394,13 +411,22 @@ def w_gpa(ctx, rng, i):
     base = gen.general_position(rng, n, d)
     mirror = bool(rng.random() < 0.4)
     shapes = []
+    mirrored_members = bool(rng.random() < 0.5)        # some shapes are mirror images - whether or not mirroring is allowed
     for _ in range(k):
-        L = gen.rotation_matrix(rng, d, mirror=bool(mirror and rng.random() < 0.5)) * rng.uniform(0.5, 2)
+        L = gen.rotation_matrix(rng, d, mirror=bool(mirrored_members and rng.random() < 0.5)) * rng.uniform(0.5, 2)
         shapes.append(ms.PointCloud(base @ L.T + rng.uniform(-4, 4, d) + rng.normal(scale=0.2, size=base.shape)))
     fixed = ms.PointCloud(base.copy()) if rng.random() < 0.4 else None
-    g = mt.GeneralizedProcrustesAnalysis(shapes, target=fixed, allow_mirror=mirror)
+    if not mirror and rng.random() < 0.5:
+        g = mt.GeneralizedProcrustesAnalysis(shapes, target=fixed)           # mirroring not asked for
+    else:
+        g = mt.GeneralizedProcrustesAnalysis(shapes, target=fixed, allow_mirror=gen.flag(rng, 1.0) if mirror else gen.flag(rng, 0.0))
     for t in g.transforms:
         t.aligned_source(); t.alignment_error()
+        if not mirror:
+            ctx.tap("gpa_member_orientation", "calls"); ctx.tap("gpa_member_orientation", "checked")
+            if np.linalg.det(np.asarray(t.h_matrix, dtype=float)[:d, :d]) < 0:
+                ctx.fail("rotation_alignment_is_a_reflection_although_mirroring_was_not_allowed", cls="GeneralizedProcrustesAnalysis", mech="member_of_a_group_with_mirrored_shapes")
+                break
     ctx.count_case(("gpa", d, k, mirror, fixed is not None), nontrivial=True)
 
 
